@@ -220,8 +220,9 @@ impl<'src> Error<'src> {
       }
       | Self::Code { code, .. } => Some(*code),
 
-      Self::ChooserStatus { status, .. } | Self::EditorStatus { status, .. } => status.code(),
-      Self::CommandStatus { status, .. } => status.code().or_else(|| {
+      Self::ChooserStatus { status, .. }
+      | Self::CommandStatus { status, .. }
+      | Self::EditorStatus { status, .. } => status.code().or_else(|| {
         Platform::signal_from_exit_status(*status).and_then(|signal| 128i32.checked_add(signal))
       }),
       Self::Backtick {
